@@ -200,8 +200,10 @@ namespace igris
                     // rnrnrnrn
                     if ((_last == '\n' || _last == '\r') && _last != c)
                     {
+                        // second byte of a CR LF / LF CR pair: it must not
+                        // pair again with the byte that follows
                         _last = 0;
-                        retcode = READLINE_NOTHING;
+                        return READLINE_NOTHING;
                     }
                     else
                     {
